@@ -252,6 +252,15 @@ type Facts struct {
 	// Dropped records atoms that were discarded because something between the
 	// guard and the use may write what they read (KILL).
 	Dropped []string
+	// Tested holds every branch atom on the dominating edges, killed or not:
+	// "this condition was tested with this outcome on every path to here".
+	Tested []*Atom
+}
+
+// WasTested: the requirement matched a dominating branch outcome (possibly stale).
+func (f *Facts) WasTested(r Req) bool {
+	t := &Facts{FI: f.FI, At: f.At, Atoms: f.Tested}
+	return t.holds(r)
 }
 
 // FactsAt computes DOM/EXIT facts for instruction in, with KILL applied.
@@ -265,6 +274,7 @@ func (fi *FuncInfo) FactsAt(in ssa.Instruction) *Facts {
 		for _, a := range atomsOf(cs, ef.Pos) {
 			a.If = ef.If
 			a.Loads = atomLoads(a)
+			f.Tested = append(f.Tested, a)
 			if k := fi.atomKilled(a, ef.If, in); k != nil {
 				f.Dropped = append(f.Dropped, fmt.Sprintf("%s (killed by %s)", a, fi.P.InstrPos(k)))
 				continue
@@ -332,7 +342,7 @@ func (fi *FuncInfo) symKilled(s *Sym, from ssa.Instruction, use ssa.Instruction)
 	p := fi.P
 	roots := map[ssa.Value]bool{}
 	s.Walk(func(x *Sym) {
-		if x.K == KAlloc {
+		if x.K == KAlloc && x.V != nil {
 			roots[x.V] = true
 		}
 	})
